@@ -198,7 +198,10 @@ Proof.
   split; [exact Hb|]. cbn [stale_class] in Hno. rewrite Hq in Hno. rewrite (oi_bound _ _ _ _ HI), Hb, (oi_defs _ _ _ _ HI) in Hno. cbn [andb] in Hno.
   destruct (room_valid_now defs r key now); [reflexivity|]. cbn [negb] in Hno.
   pose proof (oi_cov _ _ _ _ HI r Hin) as Hc.
-  Show. destruct (find (fun x : uid * bool => N.eqb (fst x) r) gh) as [[r0 [|]]|]; [| |congruence]; destruct Hno as [H1 H2]; cbn in H1, H2; first [discriminate H1 | discriminate H2].
+  match type of Hno with no12 (match ?f with _ => _ end) => destruct f as [[r0 [|]]|] eqn:Ef end.
+  - destruct Hno as [H1 _]. cbn in H1. discriminate H1.
+  - destruct Hno as [_ H2]. cbn in H2. discriminate H2.
+  - exfalso. apply Hc. exact Ef.
 Qed.
 Lemma valid_member : forall defs r key now, room_valid_now defs r key now = true -> member_now defs r key now = true.
 Proof.
@@ -263,3 +266,252 @@ Proof.
     rewrite (edge_room_unique _ e Hne Hin). apply opt_is_some in Hf. rewrite Hf.
     cbn [item_ok]. rewrite Hb, (valid_member _ _ _ _ Hv). reflexivity.
 Qed.
+
+(* ------------------------------------------------------------------ steps keep the invariant *)
+Lemma do_query_frame : forall self key i s now q s' a, do_query self key i s now q = (s', a) ->
+  o_bound s' = o_bound s /\ o_defs s' = o_defs s /\ (o_allowed s' = o_allowed s \/ o_bound s = true).
+Proof.
+  intros self key i s now q s' a H. unfold do_query in H.
+  assert (Hserve : forall ans al, serve self key i s now q = (ans, al) -> al = o_allowed s \/ q = QryRoomList).
+  { intros ans al Hs. destruct q; cbn [serve] in Hs; inversion Hs; auto. }
+  destruct (serve self key i s now q) as [ans al] eqn:Es.
+  destruct (a_guard (arm_of (kind_of q))) eqn:Eg.
+  - inversion H; subst. cbn [set_allowed o_bound o_defs o_allowed]. repeat split.
+    destruct (Hserve _ _ eq_refl) as [Hal|Hq]; [left; exact Hal|]. subst q. cbn [kind_of] in Eg. destruct roomlist_arm as [Hg _]. congruence.
+  - destruct (o_bound s) eqn:Eb.
+    + destruct (N.eqb key self); inversion H; subst; cbn [set_allowed o_bound o_defs o_allowed]; auto.
+    + inversion H; subst. auto.
+  - destruct (o_bound s) eqn:Eb; cbn [andb] in H.
+    + destruct (o_ready s); inversion H; subst; cbn [set_allowed o_bound o_defs o_allowed]; auto.
+    + inversion H; subst. auto.
+  - destruct ((match room_arg q with Some r => memU r (o_allowed s) | None => false end) || a_unguarded_success (arm_of (kind_of q))).
+    + inversion H; subst. cbn [set_allowed o_bound o_defs o_allowed]. repeat split.
+      destruct (Hserve _ _ eq_refl) as [Hal|Hq]; [left; exact Hal|]. subst q. cbn [kind_of] in Eg. destruct roomlist_arm as [Hg _]. congruence.
+    + destruct (a_refuses_otherwise (arm_of (kind_of q))); inversion H; subst; auto.
+Qed.
+
+Definition next_bound (bound : bool) (e : oev) : bool := match e with OBind => true | _ => bound end.
+Definition next_defs (defs : list (uid * list event)) (e : oev) : list (uid * list event) :=
+  match e with ODefine r ev => define defs r ev | _ => defs end.
+
+Lemma ostep_OI : forall self key i s bound defs gh e s' a,
+  OI s bound defs gh -> ostep self key i s e = (s', a) ->
+  OI s' (next_bound bound e) (next_defs defs e) (tag_new key (o_defs s) (ev_time e) (o_allowed s) (o_allowed s') gh).
+Proof.
+  intros self key i s bound defs gh e s' a HI H.
+  destruct HI as [Hb Hd Hnd Hub Hcov].
+  assert (Hcov' : covers (tag_new key (o_defs s) (ev_time e) (o_allowed s) (o_allowed s') gh) (o_allowed s'))
+    by (apply tag_new_covers; exact Hcov).
+  destruct e as [|b|r ev|now r|now q]; cbn [ostep next_bound next_defs] in *.
+  - inversion H; subst. constructor; cbn [o_bound o_defs o_allowed] in *; auto. discriminate.
+  - inversion H; subst. constructor; cbn [o_bound o_defs o_allowed] in *; auto.
+  - inversion H; subst. constructor; cbn [o_bound o_defs o_allowed] in *; auto. rewrite define_fst. exact Hnd.
+  - destruct (o_bound s && room_has_user (o_defs s) r key) eqn:E; inversion H; subst; constructor; cbn [set_allowed o_bound o_defs o_allowed] in *; auto.
+    intros Hf. rewrite Hf in E. discriminate.
+  - destruct (do_query_frame _ _ _ _ _ _ _ _ H) as (F1 & F2 & F3). constructor; auto; try congruence.
+    intros Hf. destruct F3 as [F3|F3]; [rewrite F3; apply Hub; exact Hf | congruence].
+Qed.
+
+(* ------------------------------------------------------------------ a whole connection *)
+Theorem session_ok : forall es self key i s bound defs gh,
+  NoDup (map n_id (i_nodes i)) -> NoDup (map e_id (i_edges i)) ->
+  OI s bound defs gh -> no12 (known_from self key i s gh es) ->
+  spec_from key i bound defs es (orun self key i s es) = true.
+Proof.
+  induction es as [|e tl IH]; intros self key i s bound defs gh Hnn Hne HI Hno; [reflexivity|].
+  cbn [orun known_from] in *. destruct (ostep self key i s e) as [s' a] eqn:Es. cbn [fst] in Hno.
+  apply no12_app in Hno. destruct Hno as [Hno1 Hno2].
+  pose proof (ostep_OI _ _ _ _ _ _ _ _ _ _ HI Es) as HI'.
+  specialize (IH self key i s' _ _ _ Hnn Hne HI' Hno2).
+  cbn [spec_from]. destruct e as [|b|r ev|now r|now q]; cbn [next_bound next_defs] in IH; try exact IH.
+  apply andb_true_iff. split; [|exact IH].
+  cbn [ostep] in Es. exact (query_ok self key i s bound defs gh now q s' a Hnn Hne HI Hno1 Es).
+Qed.
+
+Lemma take_n_enc : forall items rest, take_n (length items) (map zn items ++ rest) = Some (items, rest).
+Proof.
+  induction items as [|x t IH]; intros rest; [reflexivity|]. cbn [length map app take_n]. rewrite IH. unfold zn. rewrite N2Z.id. reflexivity.
+Qed.
+Lemma decode_encode : forall al, decode (length al) (encode al) = Some al.
+Proof.
+  induction al as [|[code items] al IH]; [reflexivity|].
+  unfold encode in *. cbn [length flat_map enc_ans fst snd app decode]. rewrite Nat2Z.id, take_n_enc, IH. reflexivity.
+Qed.
+Lemma orun_length : forall es self key i s, length (orun self key i s es) = length es.
+Proof.
+  induction es as [|e tl IH]; intros; [reflexivity|]. cbn [orun]. destruct (ostep self key i s e). cbn [length]. rewrite IH. reflexivity.
+Qed.
+
+Lemma OI_init : forall i, NoDup (map fst (i_defs i)) -> OI (oinit i) false (i_defs i) [].
+Proof. intros i H. constructor; cbn; auto. intros r []. Qed.
+
+Theorem outside_known : forall c, wf_case c = true -> known_C08 c = [] -> spec_C08 c (run_C08 c) = true.
+Proof.
+  intros [self key i es] Hwf Hk. unfold wf_case in Hwf. apply andb_true_iff in Hwf. destruct Hwf as [Hwf Hd]. apply andb_true_iff in Hwf. destruct Hwf as [Hn He].
+  unfold spec_C08, run_C08, run_answers. rewrite <- (orun_length es self key i (oinit i)), decode_encode.
+  unfold known_C08 in Hk. apply dedupZ_nil in Hk.
+  apply (session_ok es self key i (oinit i) false (i_defs i) []); auto using nodupN_NoDup, OI_init.
+Qed.
+
+(* ------------------------------------------------------------------ before a key is proven: nothing *)
+Theorem preauth_nothing : forall es self key i s,
+  o_bound s = false -> o_allowed s = [] -> ~ In OBind es ->
+  forall a, In a (orun self key i s es) -> snd a = [].
+Proof.
+  induction es as [|e tl IH]; intros self key i s Hb Hal Hnb a Ha; [destruct Ha|].
+  cbn [orun] in Ha. destruct (ostep self key i s e) as [s' a0] eqn:Es.
+  assert (Hstep : snd a0 = [] /\ o_bound s' = false /\ o_allowed s' = []).
+  { destruct e as [|b|r ev|now r|now q]; cbn [ostep] in Es.
+    - exfalso. apply Hnb. left. reflexivity.
+    - inversion Es; subst. auto.
+    - inversion Es; subst. auto.
+    - rewrite Hb in Es. cbn [andb] in Es. inversion Es; subst. auto.
+    - destruct (do_query_frame _ _ _ _ _ _ _ _ Es) as (F1 & _ & F3).
+      assert (Hal' : o_allowed s' = []) by (destruct F3 as [F3|F3]; [rewrite F3; exact Hal | congruence]).
+      split; [|split; [congruence | exact Hal']].
+      unfold do_query in Es. destruct q as [| | |k r ne|r ids|r l]; cbn [kind_of] in Es.
+      + destruct (a_guard (arm_of QProveIdentity)); cbn [serve] in Es; rewrite ?Hb in Es; cbn [andb room_arg orb] in Es;
+          repeat match type of Es with context [if ?c then _ else _] => destruct c end; inversion Es; reflexivity.
+      + destruct (a_guard (arm_of QHardwareFingerprint)); cbn [serve] in Es; rewrite ?Hb in Es; cbn [andb room_arg orb] in Es;
+          repeat match type of Es with context [if ?c then _ else _] => destruct c end; inversion Es; reflexivity.
+      + destruct roomlist_arm as [Hg _]. rewrite Hg, Hb in Es. cbn [andb] in Es. inversion Es; reflexivity.
+      + destruct (room_kind_arm k) as [Hg Hu]. cbv zeta in Hg, Hu. rewrite Hg, Hu, Hal in Es. cbn [room_arg memU existsb orb] in Es.
+        destruct (a_refuses_otherwise (arm_of (rk_kind k))); inversion Es; reflexivity.
+      + destruct nodes_arm as (Hg & Hu & _). rewrite Hg, Hu, Hal in Es. cbn [room_arg memU existsb orb] in Es.
+        destruct (a_refuses_otherwise (arm_of QNodes)); inversion Es; reflexivity.
+      + destruct edges_arm as (Hg & Hu & _). rewrite Hg, Hu, Hal in Es. cbn [room_arg memU existsb orb] in Es.
+        destruct (a_refuses_otherwise (arm_of QEdges)); inversion Es; reflexivity. }
+  destruct Hstep as (H1 & H2 & H3). destruct Ha as [Ha|Ha]; [subst; exact H1|].
+  apply (IH self key i s' H2 H3); [intros Hin; apply Hnb; right; exact Hin | exact Ha].
+Qed.
+
+(* ------------------------------------------------------------------ a room in which the key has no entry is never served *)
+Lemma enabled_has_key : forall l k d, enabled_at l k d = true -> has_key l k = true.
+Proof.
+  intros l k d H. unfold enabled_at, lookup_user in H. destruct (find _ l) as [u|] eqn:E; [|discriminate].
+  apply find_some in E. destruct E as [Hin Hk]. apply andb_true_iff in Hk. destruct Hk as [Hk _].
+  unfold has_key. apply existsb_exists. exists u. split; assumption.
+Qed.
+Lemma valid_has_user : forall r k d, is_user_valid_at r k d = true -> has_user r k = true.
+Proof.
+  intros r k d H. unfold is_user_valid_at in H. unfold has_user. apply orb_true_iff in H. apply orb_true_iff. destruct H as [H|H].
+  - left. unfold is_admin in H. apply enabled_has_key in H. exact H.
+  - right. apply existsb_exists in H. destruct H as (a & Ha & Hv). apply existsb_exists. exists a. split; [exact Ha|].
+    unfold auth_user_valid in Hv. apply orb_true_iff in Hv. apply orb_true_iff.
+    destruct Hv as [Hv|Hv]; [left | right]; apply enabled_has_key in Hv; exact Hv.
+Qed.
+
+(* the key has no entry (enabled or not) in room r, at any moment of the connection *)
+Fixpoint no_entry_along (self key : key) (i : inst) (s : ost) (es : list oev) (r : uid) : bool :=
+  negb (room_has_user (o_defs s) r key) &&
+  match es with
+  | [] => true
+  | e :: tl => no_entry_along self key i (fst (ostep self key i s e)) tl r
+  end.
+
+Lemma do_query_no_entry : forall self key i s now q s' a r,
+  NoDup (map fst (o_defs s)) ->
+  room_has_user (o_defs s) r key = false -> ~ In r (o_allowed s) ->
+  do_query self key i s now q = (s', a) ->
+  ~ In r (o_allowed s') /\ (room_arg q = Some r -> a = (1%Z, [])) /\ (q = QryRoomList -> ~ In r (snd a)).
+Proof.
+  intros self key i s now q s' a r Hnd Hno Hnin H.
+  assert (Hlist : ~ In r (rooms_for_peer (o_defs s) key now)).
+  { intros Hin. unfold rooms_for_peer in Hin. apply in_map_iff in Hin. destruct Hin as (d & Hd & Hin). apply filter_In in Hin. destruct Hin as [Hin Hv].
+    apply valid_has_user in Hv. unfold room_has_user in Hno. subst r. rewrite (def_of_in _ d Hnd Hin) in Hno. unfold room_of in Hv. congruence. }
+  unfold do_query in H. destruct q as [| | |k r0 ne|r0 ids|r0 l]; cbn [kind_of] in H.
+  - assert (o_allowed s' = o_allowed s).
+    { destruct (a_guard (arm_of QProveIdentity)); cbn [serve room_arg orb] in H;
+        repeat match type of H with context [if ?c then _ else _] => destruct c end; inversion H; reflexivity. }
+    rewrite H0. repeat split; auto; discriminate.
+  - assert (o_allowed s' = o_allowed s).
+    { destruct (a_guard (arm_of QHardwareFingerprint)); cbn [serve room_arg orb] in H;
+        repeat match type of H with context [if ?c then _ else _] => destruct c end; inversion H; reflexivity. }
+    rewrite H0. repeat split; auto; discriminate.
+  - destruct roomlist_arm as [Hg _]. rewrite Hg in H. cbn [serve] in H.
+    destruct (o_bound s && o_ready s).
+    + match type of H with (set_allowed s ?al, _) = _ => set (al' := al) in H; assert (Hal' : ~ In r al') end.
+      { unfold al'. destruct (a_inserts (arm_of (kind_of QryRoomList))); [exact Hnin|]. destruct (o_allowed s) eqn:Eal; [|exact Hnin].
+        intros Hin. apply fold_addU_In in Hin. destruct Hin as [Hin|[]]. exact (Hlist Hin). }
+      clearbody al'. inversion H; subst. cbn [set_allowed o_allowed snd]. split; [exact Hal'|]. split; [discriminate | intros _; exact Hlist].
+    + inversion H; subst. split; [exact Hnin|]. split; [discriminate | intros _ []].
+  - destruct (room_kind_arm k) as [Hg Hu]. cbv zeta in Hg, Hu. rewrite Hg, Hu in H. cbn [room_arg serve] in H. rewrite orb_false_r in H.
+    destruct (memU r0 (o_allowed s)) eqn:Em.
+    + inversion H; subst. cbn [set_allowed o_allowed]. repeat split; [exact Hnin | | discriminate].
+      intros Hq. inversion Hq; subst. apply memU_In in Em. contradiction.
+    + pose proof (arm_ok_all (rk_kind k)) as Hk. unfold arm_ok in Hk. rewrite (rk_first_arg k) in Hk.
+      assert (Href : a_refuses_otherwise (arm_of (rk_kind k)) = true).
+      { repeat (apply andb_true_iff in Hk; destruct Hk as [Hk ?]); assumption. }
+      rewrite Href in H. inversion H; subst. repeat split; auto; try discriminate.
+  - destruct nodes_arm as (Hg & Hu & Hs). rewrite Hg, Hu in H. cbn [room_arg serve] in H. rewrite orb_false_r in H.
+    destruct (memU r0 (o_allowed s)) eqn:Em.
+    + inversion H; subst. cbn [set_allowed o_allowed]. repeat split; [exact Hnin | | discriminate].
+      intros Hq. inversion Hq; subst. apply memU_In in Em. contradiction.
+    + pose proof (arm_ok_all QNodes) as Hk. unfold arm_ok in Hk. change (a_first_arg_is_room (arm_of QNodes)) with true in Hk. cbv iota in Hk.
+      assert (Href : a_refuses_otherwise (arm_of QNodes) = true).
+      { repeat (apply andb_true_iff in Hk; destruct Hk as [Hk ?]); assumption. }
+      rewrite Href in H. inversion H; subst. repeat split; auto; try discriminate.
+  - destruct edges_arm as (Hg & Hu & Hs). rewrite Hg, Hu in H. cbn [room_arg serve] in H. rewrite orb_false_r in H.
+    destruct (memU r0 (o_allowed s)) eqn:Em.
+    + inversion H; subst. cbn [set_allowed o_allowed]. repeat split; [exact Hnin | | discriminate].
+      intros Hq. inversion Hq; subst. apply memU_In in Em. contradiction.
+    + pose proof (arm_ok_all QEdges) as Hk. unfold arm_ok in Hk. change (a_first_arg_is_room (arm_of QEdges)) with true in Hk. cbv iota in Hk.
+      assert (Href : a_refuses_otherwise (arm_of QEdges) = true).
+      { repeat (apply andb_true_iff in Hk; destruct Hk as [Hk ?]); assumption. }
+      rewrite Href in H. inversion H; subst. repeat split; auto; try discriminate.
+Qed.
+
+(* what each answer must look like for that room *)
+Definition answer_spares (r : uid) (e : oev) (a : answer) : Prop :=
+  match e with
+  | OQuery _ q => (room_arg q = Some r -> a = (1%Z, [])) /\ (q = QryRoomList -> ~ In r (snd a))
+  | _ => True
+  end.
+Theorem no_entry_not_served : forall es self key i s r,
+  NoDup (map fst (o_defs s)) -> ~ In r (o_allowed s) -> no_entry_along self key i s es r = true ->
+  Forall2 (answer_spares r) es (orun self key i s es) /\ ~ In r (o_allowed (ostate self key i s es)).
+Proof.
+  induction es as [|e tl IH]; intros self key i s r Hnd Hnin Hne; cbn [orun ostate no_entry_along] in *.
+  - split; [constructor | exact Hnin].
+  - apply andb_true_iff in Hne. destruct Hne as [Hno Hne]. apply negb_true_iff in Hno.
+    destruct (ostep self key i s e) as [s' a] eqn:Es. cbn [fst] in *.
+    assert (Hstep : ~ In r (o_allowed s') /\ NoDup (map fst (o_defs s')) /\ answer_spares r e a).
+    { destruct e as [|b|r0 ev|now r0|now q]; cbn [ostep] in Es.
+      - inversion Es; subst. cbn. auto.
+      - inversion Es; subst. cbn. auto.
+      - inversion Es; subst. cbn [o_allowed o_defs answer_spares]. rewrite define_fst. auto.
+      - destruct (o_bound s && room_has_user (o_defs s) r0 key) eqn:E; inversion Es; subst; cbn [set_allowed o_allowed o_defs answer_spares]; auto.
+        split; [|auto]. intros Hin. apply addU_In in Hin. destruct Hin as [Hin|Hin]; [|contradiction].
+        subst r0. apply andb_true_iff in E. destruct E as [_ E]. congruence.
+      - destruct (do_query_no_entry _ _ _ _ _ _ _ _ r Hnd Hno Hnin Es) as (A & B & C).
+        destruct (do_query_frame _ _ _ _ _ _ _ _ Es) as (_ & F2 & _). rewrite F2. cbn [answer_spares]. auto. }
+    destruct Hstep as (A & B & C). destruct (IH self key i s' r B A Hne) as [IH1 IH2].
+    split; [constructor; assumption | exact IH2].
+Qed.
+
+(* ------------------------------------------------------------------ witnesses *)
+Definition inst_w (evs : list event) : inst :=
+  {| i_defs := [(1, evs); (2, [EvAdmin 1 100 true; EvGroup 21; EvUser 21 3 100 true])];
+     i_nodes := [{| n_id := 1; n_room := Some 1 |}; {| n_id := 2; n_room := Some 2 |}];
+     i_edges := [{| e_id := 1; e_src := 1; e_cdate := 120 |}] |}.
+(* K1: disabled while connected, still served *)
+Definition k1_witness : c08case :=
+  COut 1 2 (inst_w [EvAdmin 1 100 true; EvGroup 11; EvUser 11 2 100 true])
+    [OBind; OReady true; OQuery 200 QryRoomList; ODefine 1 (EvUser 11 2 300 false); OQuery 400 QryRoomList; OQuery 400 (QryNodes 1 [1; 2])].
+(* K2: a former member is admitted again by the next definition event *)
+Definition k2_witness : c08case :=
+  COut 1 2 (inst_w [EvAdmin 1 100 true; EvGroup 11; EvUser 11 2 100 true; EvUser 11 2 150 false])
+    [OBind; OReady true; OQuery 200 QryRoomList; OQuery 200 (QryNodes 1 [1; 2]); ODefine 1 (EvUser 11 3 300 true); ODefChanged 300 1; OQuery 400 (QryNodes 1 [1; 2])].
+Lemma refuted :
+  wf_case k1_witness = true /\ spec_C08 k1_witness (run_C08 k1_witness) = false /\ known_C08 k1_witness = [1%Z] /\
+  wf_case k2_witness = true /\ spec_C08 k2_witness (run_C08 k2_witness) = false /\ known_C08 k2_witness = [2%Z].
+Proof. vm_compute. repeat split. Qed.
+
+Definition ok_witness : c08case :=
+  COut 1 2 (inst_w [EvAdmin 1 100 true; EvGroup 11; EvUser 11 2 100 true])
+    [OQuery 150 (QryNodes 1 [1; 2]); OBind; OReady true; OQuery 200 QryRoomList; OQuery 210 (QryNodes 1 [1; 2]); OQuery 220 (QryNodes 2 [1; 2]);
+     OQuery 230 (QryEdges 1 [(1, 0%Z)]); OQuery 240 (QryRoom RLog 1 true); OQuery 250 (QryRoom RLog 2 true)].
+Lemma nonvacuous :
+  wf_case ok_witness = true /\ known_C08 ok_witness = [] /\
+  run_answers ok_witness = [(1%Z, []); (0%Z, []); (0%Z, []); (2%Z, [1]); (2%Z, [1]); (1%Z, []); (2%Z, [1]); (2%Z, [1]); (1%Z, [])].
+Proof. vm_compute. repeat split. Qed.
